@@ -29,6 +29,7 @@ pub fn check(tier: Tier) -> Check {
     // two subscriptions: one message for both streams, one of them dropped, re-deliveries naming
     // the same / fewer / other subscription identifiers, messages no stream takes
     parts.push(Part::new("C09/qos2", json!({"depth": tier.pick(4, 5), "two": true}), 0, tier.pick(40, 300)));
+    parts.push(Part::new("C09/qos2", json!({"depth": tier.pick(5, 6), "rel_forms": true}), 0, tier.pick(40, 300)));
     // the bookkeeping across a reconnect: kept while the session lives, forgotten when it expired
     parts.push(Part::new("C09/reset", json!({}), 0, 60));
     parts.push(Part::new("C09/wide", json!({"n": tier.pick(4096, 65535)}), 0, 300));
@@ -209,6 +210,7 @@ pub fn scenario(name: &str, params: &Value) -> Scenario {
         }
         let sid = sys.m.subs[0].sub_id.unwrap();
         let two = params["two"].as_bool().unwrap_or(false);
+        let rel_forms = params["rel_forms"].as_bool().unwrap_or(false);
         let mut lists: Vec<Vec<u32>> = vec![vec![sid]];
         if two {
             sys.apply(Ev::Start(OpSpec::Subscribe(SubscribeSpec::simple("s/b"))));
@@ -236,6 +238,12 @@ pub fn scenario(name: &str, params: &Value) -> Scenario {
                     e.push(Ev::Deliver(inbound(2, dup, pid, l, &format!("m{}", n))));
                 }
                 e.push(Ev::Deliver(pubrel_in(pid)));
+                if rel_forms {
+                    // a PUBREL in its other legal forms (reason 0x92 in three bytes, in full with a
+                    // reason string) releases the identifier like any other
+                    e.push(Ev::Deliver(SPacket::Ack { ty: 6, pid, reason: 0x92, props: vec![], form: 3 }));
+                    e.push(Ev::Deliver(SPacket::Ack { ty: 6, pid, reason: 0, props: vec![Prop::str(P_REASON_STRING, "rel")], form: 4 }));
+                }
             }
             if two {
                 for i in 0..s.m.streams.len() {
